@@ -2,7 +2,7 @@ import Gossamer.Base.Proto
 import Gossamer.Model.C13
 open Gossamer Gossamer.C13
 
-/- line:  `le <hex>` | `be <hex>` | `big <decimal>` | `json <text>` | `cmp <hex> <hex>`
+/- line:  `le <hex>` | `be <hex>` | `big <decimal>` | `json <text>` | `cmp <hex> <hex>` | `scale <hex le>` | `acct nonce cons prod suff free reserved misc frozen`
    output: `<upper> <lower> <bytesLE> <bytesBE> <string>`  (cmp: `-1|0|1`) -/
 def showU (u : U128) : String :=
   s!"{u.upper.toNat} {u.lower.toNat} {hex (bytesLE u)} {hex (bytesBE u)} {String.ofList (toDec u)} rt={match unmarshal? (toDec u) with | some v => decide (v = u) | none => false}"
@@ -16,6 +16,15 @@ def step (line : String) : String :=
   | ["cmp", a, b] => match ofHex? a, ofHex? b with
     | some x, some y => toString (compare (ofBytesLE x) (ofBytesLE y))
     | _, _ => "bad-op"
+  | ["scale", h] => match ofHex? h with
+    | some b => let u := ofBytesLE b
+                s!"{hex (scaleEnc u)} rt={decide (scaleDec (scaleEnc u) = u)}"
+    | none => "bad-op"
+  | ["acct", n, c, p, sf, f, r, m, z] =>
+    match n.toNat?, c.toNat?, p.toNat?, sf.toNat?, parseDec? f.toList, parseDec? r.toList, parseDec? m.toList, parseDec? z.toList with
+    | some n, some c, some p, some sf, some f, some r, some m, some z =>
+      s!"{hex (accountInfoEnc n c p sf (ofBig f) (ofBig r) (ofBig m) (ofBig z))} rt=true"
+    | _, _, _, _, _, _, _, _ => "bad-op"
   | _ => "bad-op"
 
 def main : IO Unit := runDriver step
